@@ -69,7 +69,7 @@ CHECKS = {
    design="4 (C06), 3.5"),
  "C07": dict(
    level="model_checking",
-   text="Same specification Routes; the real HTTPReverseProxy is served origin-form, absolute-form and h2c requests with 8 classes of Authorization / Proxy-Authorization headers (absent, right, wrong password, other user, malformed base64, empty user, lower-case scheme) against tables mixing protected, unprotected and user-routed routes, and the real tcpmux muxer is sent CONNECTs with the same classes; for every request TLC checks on the specification's table that a protected backend was reached only with exactly its credentials, that the route used for the check is the route used for forwarding (the most specific one for the forwarding user), and that refusals are 401 / 404 / not handed on. The built-in services are a second specification, Services: a connection to the http_proxy, socks5 or static_file client plugin, the frps dashboard or the frpc admin API is a sequence of requests with a class of credentials each (TLC: 2.6k states, ServedImpliesCreds, RightIsServed; the deviations ConnectAfterFirstUnchecked and FirstOnly must violate the first); the real plugins are reached through a real frps + frpc, the web servers directly, with every class as first and as later request of a keep-alive connection, GET and CONNECT forms, and TLC evaluates the invariants on what was observed at the protected target (Trace_Services).",
+   text="Same specification Routes; the real HTTPReverseProxy is served origin-form, absolute-form and h2c requests with 8 classes of Authorization / Proxy-Authorization headers (absent, right, wrong password, other user, malformed base64, empty user, lower-case scheme) against tables mixing protected, unprotected and user-routed routes, and the real tcpmux muxer is sent CONNECTs with the same classes; for every request TLC checks on the specification's table that a protected backend was reached only with exactly its credentials, that the route used for the check is the route used for forwarding (the most specific one for the forwarding user), and that refusals are 401 / 404 / not handed on. The built-in services are a second specification, Services: a connection to the http_proxy, socks5 or static_file client plugin, the frps dashboard, the frpc admin API or a password protected http proxy behind the vhost port (alone or as member of a load-balancing group) is a sequence of requests with a class of credentials each (TLC: 2.6k states, ServedImpliesCreds, RightIsServed; the deviations ConnectAfterFirstUnchecked and FirstOnly must violate the first); the real plugins are reached through a real frps + frpc, the web servers directly, with every class as first and as later request of a keep-alive connection, GET and CONNECT forms, and TLC evaluates the invariants on what was observed at the protected target (Trace_Services).",
    note="Trusted: TLC, the driver's backend-side / target-side log as the negative oracle. Credential schemes other than Basic and right credentials in the wrong header are not judged; timing side channels are out of scope.",
    technique="TLA+ specs Routes and Services model-checked with TLC + trace validation of real reverse-proxy / CONNECT-muxer / plugin / web-API executions (Trace_Routes, Trace_Services)",
    design="4 (C07), 3.5"),
@@ -87,7 +87,7 @@ CHECKS = {
    design="4 (C20), 3.6"),
  "C15": dict(
    level="model_checking",
-   text="FrpsPlugins defines the chain semantics twice: as the fold the code performs and declaratively (proceed iff every registered plugin accepted; each consulted plugin sees the last edit before it; nothing is consulted after a refusal or when not registered); TLC enumerates all 179k chains of up to 3 plugins x 7 outcomes x operation subsets and checks the two agree, and that close notifications, which gate nothing, reach every registered plugin whatever the others answered (CloseNotifiesAll; the deviation CloseStopsAtError must violate it); the real plugin.Manager with real HTTP plugins is run on every chain (stub servers programmed per case, incl. HTTP 500, connection reset, malformed JSON, empty body) for all 5 operations and the notification chain, and a real frps with one plugin per operation (two for close notifications, the first answering with every outcome) is driven at each call site with every outcome; TLC compares proceed/refuse, the consultation log, the content the server finally acts on, call-site effects and the notified set with the specification (Trace_FrpsPlugins).",
+   text="FrpsPlugins defines the chain semantics twice: as the fold the code performs and declaratively (proceed iff every registered plugin accepted; each consulted plugin sees the last edit before it; nothing is consulted after a refusal or when not registered); TLC enumerates all 179k chains of up to 3 plugins x 7 outcomes x operation subsets and checks the two agree, and that close notifications, which gate nothing, reach every registered plugin whatever the others answered (CloseNotifiesAll; the deviation CloseStopsAtError must violate it); the real plugin.Manager with real HTTP plugins is run on every chain (stub servers programmed per case, incl. HTTP 500, connection reset, malformed JSON, empty body; rewrites replace the metas as a whole, so a removal has to be threaded too) for all 5 operations and the notification chain, and a real frps with one plugin per operation (two for close notifications, the first answering with every outcome) is driven at each call site with every outcome; TLC compares proceed/refuse, the consultation log, the content the server finally acts on, call-site effects and the notified set with the specification (Trace_FrpsPlugins).",
    note="Trusted: TLC, stub plugin servers' logs. Plain HTTP plugins on loopback; new-user-connection hook on the direct tcp path.",
    technique="TLA+ spec FrpsPlugins model-checked with TLC (all chains) + validation of real plugin manager / frps call-site executions (Trace_FrpsPlugins)",
    design="4 (C15), 3.7"),
@@ -99,19 +99,19 @@ CHECKS = {
    design="4 (C19), 3.8"),
  "C17": dict(
    level="exploration",
-   text="Codec specifies the framed reader as a machine over input classes with the expected outcome and the number of bytes consumed per class, the 18-entry registry and the allocation bound; the real msg.ReadMsg is fed every class for every type byte through a counting reader, the real encoder is compared byte for byte with golden encodings of the released protocol, generated values are round-tripped, random byte strings are decoded, malformed / unexpected first messages are sent to a real frps next to a healthy session, well-formed logins of 2 - 10 KB are sent to it, and the frame classes are decided again after a frps and a frpc service were created in the process (start-up adjusts the shared codec); TLC checks every observation against the specification (Trace_Codec). Declared exploration: the quantifier over all field values and all byte strings is sampled, the specification supplies case space and oracle.",
+   text="Codec specifies the framed reader as a machine over input classes with the expected outcome and the number of bytes consumed per class, the 18-entry registry and the allocation bound; the real msg.ReadMsg is fed every class for every type byte through a counting reader, the real encoder is compared byte for byte with golden encodings of the released protocol, generated values are round-tripped, random byte strings are decoded, malformed / unexpected first messages and, after login, frames that do not decode are sent to a real frps next to a healthy session, well-formed logins of 2 - 10 KB are sent to it, and the frame classes are decided again after a frps and a frpc service were created in the process (start-up adjusts the shared codec); TLC checks every observation against the specification (Trace_Codec). Declared exploration: the quantifier over all field values and all byte strings is sampled, the specification supplies case space and oracle.",
    note="Trusted: TLC, the counting reader, the golden file produced from the pinned tree. decode(encode(m)) = m over all values is encode/decode fidelity, which this family does not enumerate.",
    technique="TLA+ spec Codec as case-space + oracle; enumerated frame classes and golden encodings replayed on the real codec, judged by TLC (Trace_Codec)",
    design="4 (C17), 3.11"),
  "C18": dict(
    level="exploration",
-   text="ConfigFlow fixes per proxy type the set of fields the server acts on, the domain / port validation rules and the strict-mode rule; generated definitions of all 8 proxy types (every optional field chosen independently, e.g. a password without a user) flow through the real Complete / Validate / MarshalToMsg / codec / NewProxyConfigurerFromMsg pipeline and TLC checks that every server-relevant field arrives equal; generated documents are loaded as TOML, YAML and JSON (equal structures), unknown fields at five depths are loaded in both strict modes, custom-domain lists and ports are validated, literals and a template are round-tripped; all observations are judged by TLC against the specification (Trace_ConfigFlow). Declared exploration: values are generated, not enumerated.",
+   text="ConfigFlow fixes per proxy type the set of fields the server acts on, the domain / port validation rules and the strict-mode rule; generated definitions of all 8 proxy types (every optional field chosen independently, e.g. a password without a user) flow through the real Complete / Validate / MarshalToMsg / codec / NewProxyConfigurerFromMsg pipeline and TLC checks that every server-relevant field arrives equal; generated documents are loaded as TOML, YAML and JSON (equal structures), unknown fields at 13 places (top level, transport, proxy, proxy plugin / health check / load balancer, visitor, visitor plugin, web server, auth) are loaded in both strict modes, custom-domain lists and ports are validated, literals and a template are round-tripped; all observations are judged by TLC against the specification (Trace_ConfigFlow). Declared exploration: values are generated, not enumerated.",
    note="Trusted: TLC, the driver's field-by-field comparison (empty and absent containers are treated alike). Command-line flags, legacy INI conversion and third-party parser fidelity beyond the generated documents are not covered.",
    technique="TLA+ spec ConfigFlow as case-space + oracle; generated configurations replayed on the real config pipeline, judged by TLC (Trace_ConfigFlow)",
    design="4 (C18), 3.11"),
  "C10": dict(
    level="model_checking",
-   text="FrpsLifecycle models a proxy as an ordered list of server resources acquired step by step with roll-back on the first conflict and release on termination; TLC exhaustively explores 5 colliding proxy definitions (port, route, name conflicts) with all interleavings of registration, partial failure and termination (2.5M states) against HeldEqualsLive, LiveHoldsAll, ReRegistrationPossible, OthersUntouched; a real frps is cycled through 18 definitions of every proxy type (incl. routes that differ only in the routing user), all four termination paths and immediate identical re-registrations, and TLC checks after every step that the resource tables read through the inspectors equal exactly the resources of the live proxies, that a registration is refused iff something it needs is held by a live proxy, and that the goroutine / descriptor footprint does not grow over cycles (Trace_FrpsLifecycle); the port / quota pipeline with every rollback point is validated against FrpsPorts; five real frps / frpc pairs (limit none / server / client, encryption + compression, mux) have an http proxy closed by a client reload while idle backend connections sit in frps' pool, and a counting backend shows whether they are released.",
+   text="FrpsLifecycle models a proxy as an ordered list of server resources acquired step by step with roll-back on the first conflict and release on termination; TLC exhaustively explores 5 colliding proxy definitions (port, route, name conflicts) with all interleavings of registration, partial failure and termination (2.5M states) against HeldEqualsLive, LiveHoldsAll, ReRegistrationPossible, OthersUntouched; a real frps is cycled through 18 definitions of every proxy type (incl. routes that differ only in the routing user), all four termination paths and immediate identical re-registrations, and TLC checks after every step that the resource tables read through the inspectors equal exactly the resources of the live proxies, that a registration is refused iff something it needs is held by a live proxy, and that the goroutine / descriptor footprint does not grow over cycles (Trace_FrpsLifecycle); tcp group histories (fixed and server-chosen port) are validated against Trace_FrpsGroups with the port manager's used set compared with the open groups at every probe; the port / quota pipeline with every rollback point is validated against FrpsPorts; five real frps / frpc pairs (limit none / server / client, encryption + compression, mux) have an http proxy closed by a client reload while idle backend connections sit in frps' pool, and a counting backend shows whether they are released.",
    note="Trusted: TLC, the verif-only inspectors. Crash points are the steps of the registration pipeline (driven through conflicts and gates), not arbitrary instruction boundaries; closing of wrapped transports under traffic is checked by C01.",
    technique="TLA+ specs FrpsLifecycle / FrpsPorts model-checked with TLC + trace validation of real frps executions (Trace_FrpsLifecycle, Trace_FrpsPorts)",
    design="4 (C10), 3.1-3.4"),
@@ -123,7 +123,7 @@ CHECKS = {
    design="4 (C14), 3.8"),
  "C16": dict(
    level="model_checking",
-   text="The interleaving part of the crash overlay is carried by the modules with a panic / leak flag (FrpsGroups NoPanic: double close of the hand-off channel, FrpsWorkPool NoLeak, NameTable), exhaustively checked by TLC; Crash fixes the message alphabet (18 types x boundary classes x before / after login, and for NewProxy a third phase 'used': hostile definitions frps accepts - negative / zero / huge bandwidth limits, control characters in header rewrites, odd locations - carry real traffic, since message-derived values are used long after the message was handled). A sacrificial process runs a real frps and sends the whole alphabet from several connections at once (a second one runs a real frpc against a scripted server that sends the alphabet as login answer, on the control channel, as answer to work and visitor connections), followed after every batch by a liveness probe (fresh login + registration + tunnel connect), plus concurrent xtcp register / close against pre-check requests; eight stress scenarios of the other modules (gate-scheduled races, floods, name races) run in sacrificial processes of their own; exit status, stderr (panic: / fatal error:) and unanswered requests (stalled message handling) are classified and judged by TLC (Trace_Crash). Thorough tier builds with the race detector, whose reports are recorded in the evidence but not judged (a data race is not by itself a crash or a wedge; the detector also reports the recovered close-versus-send on the work-connection channel).",
+   text="The interleaving part of the crash overlay is carried by the modules with a panic / leak flag (FrpsGroups NoPanic: double close of the hand-off channel, FrpsWorkPool NoLeak, NameTable), exhaustively checked by TLC; Crash fixes the message alphabet (18 types x boundary classes x before / after login, hostile user input on the public vhost http / tcpmux CONNECT / vhost https ports of registered proxies, and for NewProxy a third phase 'used': hostile definitions frps accepts - negative / zero / huge bandwidth limits, control characters in header rewrites, odd locations - carry real traffic, since message-derived values are used long after the message was handled). A sacrificial process runs a real frps and sends the whole alphabet from several connections at once (a second one runs a real frpc against a scripted server that sends the alphabet as login answer, on the control channel, as answer to work and visitor connections), followed after every batch by a liveness probe (fresh login + registration + tunnel connect), plus concurrent xtcp register / close against pre-check requests; eight stress scenarios of the other modules (gate-scheduled races, floods, name races) run in sacrificial processes of their own; exit status, stderr (panic: / fatal error:) and unanswered requests (stalled message handling) are classified and judged by TLC (Trace_Crash). Thorough tier builds with the race detector, whose reports are recorded in the evidence but not judged (a data race is not by itself a crash or a wedge; the detector also reports the recovered close-versus-send on the work-connection channel).",
    note="Trusted: TLC, process exit classification. Field values outside the enumerated classes are not covered; the frpc run uses TLS and mux off.",
    technique="TLA+ crash overlay (NoPanic / NoLeak invariants model-checked in FrpsGroups / FrpsWorkPool, alphabet in Crash) + sacrificial-process execution of the alphabet and of stress scenarios, judged by TLC (Trace_Crash)",
    design="4 (C16), 3.9"),
